@@ -47,7 +47,8 @@ def insert(r, points, makers):
 
 def meta_maker(rng, counter):
     out = []
-    for _ in range(rng.choice([1, 1, 1, 2, 3])):
+    # (now and then a whole pile at one place: a container that carries every dependency of a page)
+    for _ in range(rng.choice([1] * 14 + [2, 2, 2, 3, 3, 5, 13, 16, 30])):
         k = rng.choice(["meta", "dep", "dep", "headc"])
         counter[0] += 1
         if k == "meta":
